@@ -279,6 +279,10 @@ def SimFilterClass():
                         raise RuntimeError(f'scripted failure in {stage}')
                     elif f['what'] == 'stop':
                         self.stop_evt.set()
+                    elif f['what'] == 'interrupt':      # a BaseException that is neither Exception nor Filter.Exit (Ctrl-C, foreign sys.exit)
+                        raise KeyboardInterrupt('scripted interrupt')
+                    elif f['what'] == 'sysexit':
+                        raise SystemExit(3)
 
         def init(self, config):
             self._log('init_begin')
@@ -322,7 +326,20 @@ def SimFilterClass():
                 seq = self.nsent
                 self.nsent += 1
                 prov = {'o': spec['name'], 'i': w.current.incarnation, 'seq': seq, 'via': []}
-                if (pl := spec.get('payload')) is not None:    # {'rotate': True} -> kind of (topic j, seq k) = KINDS[(j + k) % len]
+                if (pl := spec.get('payload')) is not None and pl.get('reuse'):
+                    # a camera-style source: one image buffer per topic, overwritten in place for every frame
+                    if not hasattr(self, '_bufs'):
+                        self._bufs = {}
+
+                    out = {}
+
+                    for t in spec.get('topics', ['main']):
+                        fresh = payload('bgr', spec['name'], w.current.incarnation, seq, t)[0]
+                        buf   = self._bufs.setdefault(t, fresh.image.copy())
+                        buf[...] = fresh.image
+                        out[t] = Frame(buf, fresh.data, 'BGR')
+
+                elif pl is not None:    # {'rotate': True} -> kind of (topic j, seq k) = KINDS[(j + k) % len]
                     out = {t: payload(KINDS[(j + seq) % len(KINDS)], spec['name'], w.current.incarnation, seq, t)[0]
                            for j, t in enumerate(spec.get('topics', ['main']))}
                 else:
